@@ -2049,7 +2049,10 @@ void indent_text()
             {
                if (parent_token_indent != 0)
                {
-                  frm.top().SetIndent(frm.top().GetIndent() + parent_token_indent - indent_size);
+                  // (indent_columns may be larger than the parent token's width: not to the left of the first column)
+                  const long brace_parent_indent = static_cast<long>(frm.top().GetIndent()) + static_cast<long>(parent_token_indent)
+                                                   - static_cast<long>(indent_size);
+                  frm.top().SetIndent((brace_parent_indent < 1) ? 1 : static_cast<size_t>(brace_parent_indent));
                   log_indent();
                }
                else
